@@ -9,8 +9,8 @@ import (
 
 	corev1 "k8s.io/api/core/v1"
 	apiequality "k8s.io/apimachinery/pkg/api/equality"
-	"k8s.io/apimachinery/pkg/labels"
 	metav1 "k8s.io/apimachinery/pkg/apis/meta/v1"
+	"k8s.io/apimachinery/pkg/labels"
 
 	edsv1 "github.com/DataDog/extendeddaemonset/api/v1alpha1"
 	"verifharness/oracle"
@@ -354,12 +354,12 @@ func rsGC(r *sim.Record) []V {
 // ExpectedStatus is the documented function of the replica-set statuses read.
 type ExpectedStatus struct {
 	Desired, Current, Ready, Available, UpToDate, Ignored int32
-	Active                                                 string
-	CanaryRS                                               string // "" = no canary block
-	State                                                  edsv1.ExtendedDaemonSetStatusState
-	Reason                                                 edsv1.ExtendedDaemonSetStatusReason
-	FailedCond, PausedCond                                 bool
-	HasStrategy                                            bool
+	Active                                                string
+	CanaryRS                                              string // "" = no canary block
+	State                                                 edsv1.ExtendedDaemonSetStatusState
+	Reason                                                edsv1.ExtendedDaemonSetStatusReason
+	FailedCond, PausedCond                                bool
+	HasStrategy                                           bool
 }
 
 // EDSStatus computes the reference status for an EDS reconcile that ran to its
